@@ -28,6 +28,14 @@ def transformations(g):
         for img in itertools.permutations(pool[: max(3, len(nts))], len(nts)):
             m = dict(zip(nts, img))
             yield f"rename({m})", lambda m=m: g.rename(lambda x: m[x])
+        # permutations of the existing names (a renamed symbol may take the old name of another one)
+        for img in itertools.permutations(nts):
+            if list(img) != nts:
+                m = dict(zip(nts, img))
+                yield f"rename({m})", lambda m=m: g.rename(lambda x: m[x])
+        if len(nts) >= 1:
+            m = {x: (nts[(i + 1) % len(nts)] if i + 1 < len(nts) else str(x) + "'") for i, x in enumerate(nts)}
+            yield f"rename({m})", lambda m=m: g.rename(lambda x: m[x])
     else:
         m = dict(zip(nts, pool + [f"Y{i}" for i in range(len(nts))]))
         yield f"rename({m})", lambda m=m: g.rename(lambda x: m[x])
